@@ -356,35 +356,57 @@ _BLK = "(self.context.gdefTableBlock if self.context.gdefTableBlock else self.co
 _LAST = f"{_BLK}.statements[len({_BLK}.statements) - 1]"
 _C = "self.context.openTypeCategories"
 _OGSW = "self.context.orderedGlyphSet"
-contract(
-    "ufo2ft.featureWriters.gdefFeatureWriter:GdefFeatureWriter._write",
-    name="classdefs",
+_SGC = "ufo2ft.featureWriters.gdefFeatureWriter:GdefFeatureWriter._sortedGlyphClass"
+_WRITE_COMMON = dict(
     props=["C18"],
     params={"self": Ref("c17_Writer")},
     returns=BOOL,
     globals={"ast": M.fea_shim(), "isinstance": M.ISINSTANCE, "fresh": M.NATIVE_FRESH},
     modifies=["c17_Node.statements", "c17_FeaFile.statements"],
+    dict_key_positions=False,  # (no clause goes from `n in orderedGlyphSet` to a position; with it z3-5.1 spends its time on 50 000 key-distinctness instances)
     requires=[
         "not fresh(self.context.gdefTableBlock)",  # heap well-formedness: what the context refers to existed before the call
         f"'{G}' in self.context.todo and '{L}' not in self.context.todo",  # this variant covers the class part (carets: hook)
         "implies(self.context.gdefTableBlock, self.context.gdefTableBlock.kind == 'TableBlock')",  # set by setContext from findTable
     ],
+)
+_CATS = ("base", "mark", "ligature", "component")
+# feaLib's GlyphClassDefStatement(baseGlyphs, markGlyphs, ligatureGlyphs, componentGlyphs): each argument is the sorted class of ITS category
+# = exactly the exported glyphs of that category, in increasing order.  `_sortedGlyphClass` is called through its CONTRACT (c18gdef.py); the
+# membership clauses and the order clauses are two variants (each calls the half of the callee's contract it needs).
+contract(
+    "ufo2ft.featureWriters.gdefFeatureWriter:GdefFeatureWriter._write",
+    name="classdefs",
+    **_WRITE_COMMON,
+    calls={_SGC + "#c17_Writer": _SGC + "#c17_members"},
     ensures={
         "returns-true": "result",
-        # feaLib's GlyphClassDefStatement(baseGlyphs, markGlyphs, ligatureGlyphs, componentGlyphs): each argument is the sorted class of ITS category
-        # = exactly the exported glyphs of that category, in increasing order (`_sortedGlyphClass` is called through its CONTRACT, c18gdef.py)
         "statement-kind": f"{_LAST}.kind == 'GlyphClassDefStatement'",
-        **{f"argument-order-{cat}-only": f"all(n in {_OGSW} and n in {_C}.{cat} for n in {_LAST}.{cat}Glyphs.glyphs)" for cat in ("base", "mark", "ligature", "component")},
-        **{f"argument-order-{cat}-every": f"all(implies(n in {_C}.{cat}, n in {_LAST}.{cat}Glyphs.glyphs) for n in {_OGSW})" for cat in ("base", "mark", "ligature", "component")},
-        **{f"argument-order-{cat}-sorted": f"all({_LAST}.{cat}Glyphs.glyphs[k] <= {_LAST}.{cat}Glyphs.glyphs[k + 1] for k in range(len({_LAST}.{cat}Glyphs.glyphs) - 1))"
-           for cat in ("base", "mark", "ligature", "component")},
+        **{f"argument-order-{cat}-only": f"all(n in {_OGSW} and n in {_C}.{cat} for n in {_LAST}.{cat}Glyphs.glyphs)" for cat in _CATS},
+        # (every exported glyph, by position in the glyph order)
+        **{f"argument-order-{cat}-every": f"all(implies(list({_OGSW})[a] in {_C}.{cat}, list({_OGSW})[a] in {_LAST}.{cat}Glyphs.glyphs) for a in range(len(list({_OGSW}))))" for cat in _CATS},
         # additive: a user-written GDEF block keeps its statements, in order, in front of the generated one
         "user-gdef-kept": "implies(self.context.gdefTableBlock, self.context.gdefTableBlock.stmt_ids[:len(self.context.gdefTableBlock.stmt_ids) - 1] == old(self.context.gdefTableBlock.stmt_ids)"
         " and self.context.feaFile.stmt_ids == old(self.context.feaFile.stmt_ids))",
         "new-gdef-appended": "implies(not self.context.gdefTableBlock, self.context.feaFile.stmt_ids[:len(self.context.feaFile.stmt_ids) - 1] == old(self.context.feaFile.stmt_ids)"
         f" and {_BLK}.kind == 'TableBlock' and {_BLK}.name == 'GDEF' and len({_BLK}.statements) == 1)",
     },
-    canaries={"mark-is-second-wrong": f"all(implies(n in {_C}.ligature, n in {_LAST}.markGlyphs.glyphs) for n in {_OGSW})"},
+    canaries={"mark-is-second-wrong": f"all(implies(list({_OGSW})[a] in {_C}.ligature, list({_OGSW})[a] in {_LAST}.markGlyphs.glyphs) for a in range(len(list({_OGSW}))))"},
+)
+contract(
+    "ufo2ft.featureWriters.gdefFeatureWriter:GdefFeatureWriter._write",
+    name="classdefs-sorted",
+    **_WRITE_COMMON,
+    calls={_SGC + "#c17_Writer": _SGC + "#c17_order"},
+    ensures={
+        **{f"argument-order-{cat}-sorted": f"all({_LAST}.{cat}Glyphs.glyphs[k] <= {_LAST}.{cat}Glyphs.glyphs[k + 1] for k in range(len({_LAST}.{cat}Glyphs.glyphs) - 1))"
+           for cat in _CATS},
+    },
+    # (the order facts restated for the statement node while it still has a name: the postconditions then only need "the last statement is that node")
+    hints={"gdefTableBlock.statements.append(glyphClassDefs)": [
+        f"all(glyphClassDefs.{cat}Glyphs.glyphs[k] <= glyphClassDefs.{cat}Glyphs.glyphs[k + 1] for k in range(len(glyphClassDefs.{cat}Glyphs.glyphs) - 1))" for cat in _CATS
+    ] + [f"{_LAST} == glyphClassDefs"]},
+    canaries={"strictly": f"all({_LAST}.baseGlyphs.glyphs[k] < {_LAST}.baseGlyphs.glyphs[k + 1] for k in range(len({_LAST}.baseGlyphs.glyphs) - 1))"},
 )
 
 # =====================================================================================================================
